@@ -22,7 +22,7 @@ def sh(cmd, **kw):
     return subprocess.run(cmd, shell=True, capture_output=True, text=True, **kw)
 
 
-def run_one(name, tier, seed, all_checks):
+def run_one(name, tier, seed, all_checks, only=None):
     d = os.path.join(SEEDED, name)
     meta = json.load(open(os.path.join(d, 'meta.json')))
     prop = meta['property']
@@ -44,6 +44,8 @@ def run_one(name, tier, seed, all_checks):
         if all_checks:
             man = json.load(open(os.path.join(VERIF, 'MANIFEST.json')))
             props = [c['property_id'] for c in man['checks']]
+        if only:
+            props = only
         for p in props:
             t0 = time.time()
             env = dict(os.environ, VERIF_REPO=wt, VERIF_SEED=str(seed))
@@ -53,11 +55,12 @@ def run_one(name, tier, seed, all_checks):
             res['runs'].append({'check': p, 'exit': r.returncode, 'caught': r.returncode == 1,
                                 'wall_s': round(time.time() - t0, 1), 'lines': lines[:6]})
         own = [x for x in res['runs'] if x['check'] == prop]
-        res['caught'] = bool(own and own[0]['caught'])
+        res['caught'] = bool(own and own[0]['caught']) if not only else any(x['caught'] for x in res['runs'])
         res['caught_by'] = [x['check'] for x in res['runs'] if x['caught']]
     finally:
         sh(f'git -C /repo worktree remove --force {wt}')
-    json.dump(res, open(os.path.join(d, 'result.json'), 'w'), indent=1)
+    out = 'result.json' if not only else 'result-' + '-'.join(only) + '.json'
+    json.dump(res, open(os.path.join(d, out), 'w'), indent=1)
     return res
 
 
@@ -67,12 +70,13 @@ def main():
     ap.add_argument('--tier', default='quick')
     ap.add_argument('--seed', type=int, default=0)
     ap.add_argument('--all-checks', action='store_true')
+    ap.add_argument('--checks', help='comma-separated check ids to run instead of the seeded property\'s own')
     a = ap.parse_args()
     names = a.names or sorted(n for n in os.listdir(SEEDED)
                               if os.path.exists(os.path.join(SEEDED, n, 'meta.json')))
     bad = 0
     for n in names:
-        res = run_one(n, a.tier, a.seed, a.all_checks)
+        res = run_one(n, a.tier, a.seed, a.all_checks, a.checks.split(',') if a.checks else None)
         print(n, 'CAUGHT' if res.get('caught') else 'MISSED', res.get('caught_by'), res.get('error', ''))
         bad += not res.get('caught')
     sys.exit(1 if bad else 0)
